@@ -35,6 +35,15 @@ Ltac canon_W :=
 
 Ltac canon := fold_minus; canon_W.
 
+(* bring every spelling of the angle [x] (e.g. (a+b)/2*k for 1/2*(a+b)*k) under sin / cos to [x] itself *)
+Ltac canon_angle x :=
+  repeat match goal with
+  | |- context [sin ?a] =>
+      lazymatch a with x => fail | _ => replace a with x by (first [ring | field | lra]) end
+  | |- context [cos ?a] =>
+      lazymatch a with x => fail | _ => replace a with x by (first [ring | field | lra]) end
+  end.
+
 (* the unfolding tactics (also used by other developments) leave the goal with W in its canonical spelling *)
 Ltac unf_ecef := unfold lla_to_ecef_r0, lla_to_ecef_r1, lla_to_ecef_r2;
                  repeat autounfold with lla_to_ecef_db; canon_W.
@@ -363,7 +372,8 @@ Lemma lla_difference_char lat1 lon1 alt1 lat2 lon2 alt2 :
 Proof.
   cbv zeta. unfold compute_lla_difference_d0, compute_lla_difference_d1, compute_lla_difference_d2.
   repeat autounfold with compute_lla_difference_db.
-  unfold R_meridian, R_transverse, W2, A_, E2_. canon.
+  unfold R_meridian, R_transverse, W2, A_, E2_.
+  canon_angle (1 / 2 * (lat1 + lat2) * (PI / 180)). canon.
   set (phim := 1 / 2 * (lat1 + lat2) * (PI / 180)). with_q phim.
   split; [|split]; [field; lra | field; lra | ring].
 Qed.
